@@ -58,8 +58,15 @@ class Gen:
         raise ValueError(m.kind)
 
     # ----------------------------------------------------------- dump (ra)
-    def dump_member_ra(self, m, getter, ind, static_scope=None):
-        """getter: expression returning the member (e.g. `v0.name()`)"""
+    def member_tag(self, m, parent_tag):
+        """tag of the composite/set/enum type a member denotes, used as the parent tag of its children"""
+        if m.public_name:
+            return "%s::schema::types::%s" % (self.pkg, m.public_name)
+        return "%s::%s" % (parent_tag, m.name)
+
+    def dump_member_ra(self, m, getter, ind, tagctx=None):
+        """getter: expression returning the member (e.g. `v0.name()`); tagctx = tag of the member itself when the
+        children are to be read through get_by_tag"""
         pad = "    " * ind
         n = cstr(m.name)
         if m.kind in ("scalar", "enum", "set"):
@@ -79,24 +86,34 @@ class Gen:
             c = self.fresh("c")
             self.w("%s{ auto %s = %s; o.C(%s);" % (pad, c, getter, n))
             for e in m.elements:
-                self.dump_member_ra(e, "%s.%s()" % (c, e.name), ind + 1)
+                if tagctx is not None:
+                    ctag = self.member_tag(m, tagctx)
+                    self.dump_member_ra(e, "sbepp::get_by_tag<%s::%s>(%s)" % (ctag, e.name, c), ind + 1, ctag)
+                else:
+                    self.dump_member_ra(e, "%s.%s()" % (c, e.name), ind + 1)
             self.w("%s  o.end(); }" % pad)
 
     def dump_level(self, L, v, ind, mode):
         """mode: ra | cur. v: variable naming the level view. In cur mode `c` is the cursor."""
         pad = "    " * ind
         cur = "c" if mode == "cur" else ""
+        ltag = self.level_tag(L)
+
+        def acc(name):
+            if mode == "tag":
+                return "sbepp::get_by_tag<%s::%s>(%s)" % (ltag, name, v)
+            return "%s.%s(%s)" % (v, name, cur)
         for m in L.fields:
             if m.is_const:
-                if mode == "ra":
-                    self.dump_member_ra(m, "%s.%s()" % (v, m.name), ind)
+                if mode in ("ra", "tag"):
+                    self.dump_member_ra(m, acc(m.name), ind, ltag if mode == "tag" else None)
                 continue
-            self.dump_member_ra(m, "%s.%s(%s)" % (v, m.name, cur), ind)
+            self.dump_member_ra(m, acc(m.name), ind, ltag if mode == "tag" else None)
         for g in L.groups:
             gv = self.fresh("g")
             ev = self.fresh("e")
             iv = self.fresh("i")
-            self.w("%s{ auto %s = %s.%s(%s);" % (pad, gv, v, g.name, cur))
+            self.w("%s{ auto %s = %s;" % (pad, gv, acc(g.name)))
             self.w("%s  o.G(%s, %s.size(), sbepp::get_header(%s).blockLength().value());" % (pad, cstr(g.name), gv, gv))
             self.w("%s  std::size_t %s = 0;" % (pad, iv))
             flat = not g.groups and not g.data
@@ -119,7 +136,7 @@ class Gen:
             self.w("%s  o.end(); }" % pad)
         for d in L.data:
             dv = self.fresh("d")
-            self.w("%s{ auto %s = %s.%s(%s); o.D(%s, %s.size(), %s.data()); }" % (pad, dv, v, d.name, cur, cstr(d.name), dv, dv))
+            self.w("%s{ auto %s = %s; o.D(%s, %s.size(), %s.data()); }" % (pad, dv, acc(d.name), cstr(d.name), dv, dv))
 
     # ----------------------------------------------------- tag name table
     def tagnames(self):
@@ -131,18 +148,31 @@ class Gen:
             seen.add(tag)
             self.w("inline const char* tagname(%s) { return %s; }" % (tag, cstr(name)))
 
+        def enumset(t, tag):
+            if t["kind"] == "enum":
+                for v in t["values"]:
+                    emit("%s::%s" % (tag, v["name"]), v["name"])
+            elif t["kind"] == "set":
+                for c in t["choices"]:
+                    emit("%s::%s" % (tag, c["name"]), c["name"])
+
         def comp(c, tag):
             for e in c.elements:
                 et = "%s::%s" % (tag, e.name)
                 emit(et, e.name)
                 if e.kind == "composite" and not e.via_ref:
                     comp(e, et)
+                elif e.kind in ("enum", "set") and not e.via_ref:
+                    enumset(e.target, et)
 
+        self.w("inline const char* tagname(sbepp::unknown_enum_value_tag) { return \"?\"; }")
         for t in self.m.sch["types"]:
             tag = "%s::schema::types::%s" % (self.pkg, t["name"])
             emit(tag, t["name"])
             if t["kind"] == "composite":
                 comp(self.m.composite(t), tag)
+            else:
+                enumset(t, tag)
 
         def level(L):
             tag = self.level_tag(L)
@@ -157,30 +187,34 @@ class Gen:
             level(L)
 
     # ---------------------------------------------------------- encode
-    def set_member(self, m, owner, ind):
-        """code that reads a payload from `tk` and writes member m of view `owner`"""
+    def set_member(self, m, owner, ind, otag):
+        """code that reads a payload from `tk` and writes member m of view `owner` (whose tag is otag)"""
         pad = "    " * ind
+        mtag = "%s::%s" % (otag, m.name)
         if m.kind == "scalar":
             T = self.fresh("T")
-            self.w("%s{ typedef decltype(%s.%s()) %s; %s.%s(%s(rt::from_bits<%s>(tk.u64()))); }" % (
-                pad, owner, m.name, T, owner, m.name, T, CPP_PRIM[m.prim]))
+            self.w("%s{ typedef decltype(%s.%s()) %s; %s val_(rt::from_bits<%s>(tk.u64()));" % (pad, owner, m.name, T, T, CPP_PRIM[m.prim]))
+            self.w("%s  if(g_bytag) sbepp::set_by_tag<%s>(%s, val_); else %s.%s(val_); }" % (pad, mtag, owner, owner, m.name))
         elif m.kind == "enum":
             T = self.fresh("T")
-            self.w("%s{ typedef decltype(%s.%s()) %s; %s.%s(rt::enum_from_bits<%s>(tk.u64())); }" % (pad, owner, m.name, T, owner, m.name, T))
+            self.w("%s{ typedef decltype(%s.%s()) %s; %s val_ = rt::enum_from_bits<%s>(tk.u64());" % (pad, owner, m.name, T, T, T))
+            self.w("%s  if(g_bytag) sbepp::set_by_tag<%s>(%s, val_); else %s.%s(val_); }" % (pad, mtag, owner, owner, m.name))
         elif m.kind == "set":
             T = self.fresh("T")
             self.w("%s{ typedef decltype(%s.%s()) %s; std::string how = tk.next();" % (pad, owner, m.name, T))
-            self.w("%s  if(how == \"v\") { %s.%s(%s(rt::from_bits<%s>(tk.u64()))); }" % (pad, owner, m.name, T, CPP_PRIM[m.prim]))
+            self.w("%s  if(how == \"v\") { %s val_(rt::from_bits<%s>(tk.u64())); if(g_bytag) sbepp::set_by_tag<%s>(%s, val_); else %s.%s(val_); }" % (
+                pad, T, CPP_PRIM[m.prim], mtag, owner, owner, m.name))
             self.w("%s  else { %s s_{}; std::size_t k_ = tk.dec(); for(std::size_t j_ = 0; j_ < k_; j_++) { std::size_t ci_ = tk.dec(); bool b_ = tk.dec() != 0; (void)b_;" % (pad, T))
             self.w("%s      switch(ci_) {" % pad)
+            stag = self.member_tag(m, otag)
             for i, ch in enumerate(m.target["choices"]):
-                self.w("%s      case %d: s_.%s(b_); break;" % (pad, i, ch["name"]))
+                self.w("%s      case %d: if(g_bytag) sbepp::set_by_tag<%s::%s>(s_, b_); else s_.%s(b_); break;" % (pad, i, stag, ch["name"], ch["name"]))
             self.w("%s      default: break; } }" % pad)
-            self.w("%s    %s.%s(s_); } }" % (pad, owner, m.name))
+            self.w("%s    if(g_bytag) sbepp::set_by_tag<%s>(%s, s_); else %s.%s(s_); } }" % (pad, mtag, owner, owner, m.name))
         elif m.kind == "composite":
             c = self.fresh("c")
             self.w("%s{ auto %s = %s.%s();" % (pad, c, owner, m.name))
-            self.set_members_loop([e for e in m.elements if not e.is_const], c, ind + 1)
+            self.set_members_loop([e for e in m.elements if not e.is_const], c, ind + 1, self.member_tag(m, otag))
             self.w("%s}" % pad)
         elif m.kind == "array":
             a = self.fresh("a")
@@ -199,20 +233,20 @@ class Gen:
                 self.w("%s     if(op.size() > 2 && op[2] == 'p') ret_ = %s.assign_string(s_.c_str(), mode_) - %s.begin(); else ret_ = %s.assign_string(s_, mode_) - %s.begin(); }" % (pad, a, a, a, a))
             self.w("%s  o.kv(\"ret\", ret_); }" % pad)
 
-    def set_members_loop(self, members, owner, ind):
+    def set_members_loop(self, members, owner, ind, otag):
         """consume  ('f' <idx> payload)* 'e'  writing members of `owner`"""
         pad = "    " * ind
         self.w("%swhile(tk.more() && tk.peek() == \"f\") { tk.next(); std::size_t fi_ = tk.dec(); switch(fi_) {" % pad)
         for i, m in enumerate(members):
             self.w("%scase %d:" % (pad, i))
-            self.set_member(m, owner, ind + 1)
+            self.set_member(m, owner, ind + 1, otag)
             self.w("%s    break;" % pad)
         self.w("%sdefault: o.err(\"bad field index\"); break; } }" % pad)
         self.w("%sif(tk.next() != \"e\") o.err(\"script: expected e\");" % pad)
 
     def encode_level(self, L, v, ind):
         pad = "    " * ind
-        self.set_members_loop([m for m in L.fields if not m.is_const], v, ind)
+        self.set_members_loop([m for m in L.fields if not m.is_const], v, ind, self.level_tag(L))
         for g in L.groups:
             gv, ev, hv = self.fresh("g"), self.fresh("e"), self.fresh("h")
             NT = self.fresh("N")
@@ -225,6 +259,8 @@ class Gen:
             self.w("%s  else if(mode == \"M\") { auto %s = sbepp::get_header(%s); typedef decltype(%s.blockLength()) BT_;" % (pad, hv, gv, hv))
             self.w("%s      %s.blockLength(BT_(static_cast<typename BT_::value_type>(tk.dec()))); %s.numInGroup(%s(static_cast<typename %s::value_type>(n_))); }" % (pad, hv, hv, NT, NT))
             self.w("%s  else if(mode == \"C\") { %s.clear(); }" % (pad, gv))
+            self.w("%s  else if(mode == \"Z\") { auto %s = sbepp::fill_group_header(%s, %s(static_cast<typename %s::value_type>(tk.u64())));" % (pad, hv, gv, NT, NT))
+            self.w("%s      o.kv(\"hdr\", reinterpret_cast<unsigned char*>(sbepp::addressof(%s)) - base_); return; }" % (pad, hv))
             self.w("%s  for(auto %s : %s) {" % (pad, ev, gv))
             self.encode_level(g, ev, ind + 1)
             self.w("%s  } }" % pad)
@@ -306,12 +342,13 @@ class Gen:
         if self.checked:
             w("namespace sbepp { [[noreturn]] void assertion_failed(char const* e, char const*, char const*, long) { rt::on_assert(e); } }")
         w("namespace drv {")
+        w("static bool g_bytag = false;")
         self.tagnames()
         w(VISITOR_CODE)
         for i, L in enumerate(m.messages):
             view = self.msg_view(L)
             # ---- dump
-            for mode in ("ra", "cur"):
+            for mode in ("ra", "cur", "tag"):
                 w("static void dump_%s_%d(unsigned char* p, std::size_t n, rt::Out& o) {" % (mode, i))
                 w("    auto v0 = sbepp::make_const_view<%s>(p, n);" % view)
                 if mode == "cur":
@@ -326,6 +363,23 @@ class Gen:
             w("    DumpVisitor vis(o); auto c = sbepp::init_cursor(v0);")
             w("    sbepp::visit(v0, c, vis);")
             w("    o.kv(\"cursor_end\", reinterpret_cast<const unsigned char*>(c.pointer()) - p);")
+            w("}")
+            # ---- events (visit with stop point)
+            w("static void events_%d(unsigned char* p, std::size_t n, std::size_t k, rt::Out& o) {" % i)
+            w("    auto v0 = sbepp::make_const_view<%s>(p, n);" % view)
+            w("    EventVisitor vis(o, k); auto c = sbepp::init_cursor(v0);")
+            w("    sbepp::visit(v0, c, vis);")
+            w("    o.s += \" | END cursor=\" + std::to_string(reinterpret_cast<const unsigned char*>(c.pointer()) - p) + \" stopped=\" + (vis.stopped ? \"1\" : \"0\") + \" events=\" + std::to_string(vis.count);")
+            w("}")
+            # ---- size_bytes_checked on message and on every group (pre-order index)
+            w("static void checked_%d(std::size_t which, unsigned char* p, std::size_t n, rt::Out& o) {" % i)
+            w("    sbepp::size_bytes_checked_result r = sbepp::size_bytes_checked_result();")
+            w("    switch(which) {")
+            w("    case 0: r = sbepp::size_bytes_checked(sbepp::make_const_view<%s>(p, n), n); break;" % view)
+            for gi, g in enumerate(self.preorder_groups(L)):
+                w("    case %d: { typedef sbepp::group_traits<%s>::value_type<const unsigned char> GT_; r = sbepp::size_bytes_checked(GT_(p, n), n); break; }" % (gi + 1, self.level_tag(g)))
+            w("    default: o.err(\"bad index\"); }")
+            w("    o.kv(\"valid\", r.valid ? 1 : 0); o.kv(\"size\", r.size);")
             w("}")
             # ---- sizes
             w("static void sizes_%d(unsigned char* p, std::size_t n, rt::Out& o) {" % i)
@@ -359,18 +413,29 @@ class Gen:
         w("    if(cmd == \"dump\") { std::string mode = tk.next(); std::vector<unsigned char> img = tk.bytes(); unsigned char* p = gb.place(img.data(), img.size(), true);")
         w("        switch(mi) {")
         for i in range(len(m.messages)):
-            w("        case %d: if(mode == \"ra\") dump_ra_%d(p, img.size(), o); else if(mode == \"cur\") dump_cur_%d(p, img.size(), o); else dump_vis_%d(p, img.size(), o); return true;" % (i, i, i, i))
+            w("        case %d: if(mode == \"ra\") dump_ra_%d(p, img.size(), o); else if(mode == \"cur\") dump_cur_%d(p, img.size(), o); else if(mode == \"tag\") dump_tag_%d(p, img.size(), o); else dump_vis_%d(p, img.size(), o); return true;" % (i, i, i, i, i))
         w("        default: return false; } }")
         w("    if(cmd == \"sizes\") { std::vector<unsigned char> img = tk.bytes(); unsigned char* p = gb.place(img.data(), img.size(), true);")
         w("        switch(mi) {")
         for i in range(len(m.messages)):
             w("        case %d: sizes_%d(p, img.size(), o); return true;" % (i, i))
         w("        default: return false; } }")
-        w("    if(cmd == \"encode\") { std::vector<unsigned char> img = tk.bytes(); unsigned char* p = gb.place(img.data(), img.size(), false);")
+        w("    if(cmd == \"events\") { std::size_t k = static_cast<std::size_t>(tk.dec()); std::vector<unsigned char> img = tk.bytes(); unsigned char* p = gb.place(img.data(), img.size(), true);")
+        w("        switch(mi) {")
+        for i in range(len(m.messages)):
+            w("        case %d: events_%d(p, img.size(), k, o); return true;" % (i, i))
+        w("        default: return false; } }")
+        w("    if(cmd == \"checked\") { std::size_t which = static_cast<std::size_t>(tk.dec()); std::vector<unsigned char> img = tk.bytes(); unsigned char* p = gb.place(img.data(), img.size(), true);")
+        w("        switch(mi) {")
+        for i in range(len(m.messages)):
+            w("        case %d: checked_%d(which, p, img.size(), o); return true;" % (i, i))
+        w("        default: return false; } }")
+        w("    if(cmd == \"encode\" || cmd == \"encodetag\") { g_bytag = (cmd == \"encodetag\"); std::vector<unsigned char> img = tk.bytes(); unsigned char* p = gb.place(img.data(), img.size(), false);")
         w("        switch(mi) {")
         for i in range(len(m.messages)):
             w("        case %d: encode_%d(p, img.size(), tk, o); break;" % (i, i))
         w("        default: return false; }")
+        w("        if(!gb.canary_ok(p)) o.err(\"write before the buffer\");")
         w("        o.tok(\"BUF \" + rt::Out::hexbytes(p, img.size())); return true; }")
         w("    if(cmd == \"tsize\") { std::size_t which = static_cast<std::size_t>(tk.dec());")
         w("        switch(mi) {")
@@ -385,6 +450,24 @@ class Gen:
 
 
 VISITOR_CODE = r'''
+struct EnumVis
+{
+    std::string name;
+    int calls;
+    EnumVis() : calls(0) {}
+    template<typename E, typename Tag> void on_enum_value(E, Tag) { name = tagname(Tag()); calls++; }
+};
+struct SetVis
+{
+    std::string s;
+    template<typename Tag> void on_set_choice(bool b, Tag)
+    {
+        if(!s.empty()) s += ',';
+        s += tagname(Tag());
+        s += b ? "=1" : "=0";
+    }
+};
+
 struct DumpVisitor
 {
     rt::Out& o;
@@ -398,8 +481,20 @@ struct DumpVisitor
         o.end();
     }
     template<typename T> void emit_scalar(T t, const char* name, std::integral_constant<int, 0>) { o.F(name, rt::bits(t.value())); }
-    template<typename T> void emit_scalar(T t, const char* name, std::integral_constant<int, 1>) { o.F(name, rt::enum_bits(t)); }
-    template<typename T> void emit_scalar(T t, const char* name, std::integral_constant<int, 2>) { o.F(name, rt::bits(*t)); }
+    template<typename T> void emit_scalar(T t, const char* name, std::integral_constant<int, 1>)
+    {
+        o.F(name, rt::enum_bits(t));
+        EnumVis ev;
+        sbepp::visit(t, ev);
+        o.tok("V " + (ev.calls == 1 ? ev.name : std::string("XERR(on_enum_value calls)")));
+    }
+    template<typename T> void emit_scalar(T t, const char* name, std::integral_constant<int, 2>)
+    {
+        o.F(name, rt::bits(*t));
+        SetVis sv;
+        sbepp::visit(t, sv);
+        o.tok("S " + (sv.s.empty() ? std::string("-") : sv.s));
+    }
     template<typename T> void emit_scalar(T t, const char* name, std::integral_constant<int, 3>) { o.A(name, t.data(), t.size()); }
     template<typename T> void emit_value(T t, const char* name, std::false_type)
     {
@@ -435,6 +530,70 @@ struct DumpVisitor
     template<typename T, typename Tag> bool on_set(T t, Tag) { emit(t, tagname(Tag())); return false; }
     template<typename T, typename Tag> bool on_composite(T t, Tag) { emit(t, tagname(Tag())); return false; }
     template<typename D, typename Tag> bool on_data(D d, Tag) { o.D(tagname(Tag()), d.size(), d.data()); return false; }
+};
+
+// flat event log with a stop point (C19): every bool callback is one event
+struct EventVisitor
+{
+    rt::Out& o;
+    std::size_t stop_at, count;
+    bool stopped;
+    std::vector<std::size_t> idx;
+    EventVisitor(rt::Out& out, std::size_t k) : o(out), stop_at(k), count(0), stopped(false) {}
+    void ev(const std::string& e)
+    {
+        if(stopped) o.err("callback after stop: " + e);
+        if(!o.s.empty()) o.s += " | ";
+        o.s += e;
+        count++;
+        if(count == stop_at) stopped = true;
+    }
+    template<typename T> std::string val(T t, std::integral_constant<int, 0>) { return rt::Out::hex64(rt::bits(t.value())); }
+    template<typename T> std::string val(T t, std::integral_constant<int, 1>) { return rt::Out::hex64(rt::enum_bits(t)); }
+    template<typename T> std::string val(T t, std::integral_constant<int, 2>) { return rt::Out::hex64(rt::bits(*t)); }
+    template<typename T> std::string val(T t, std::integral_constant<int, 3>) { return rt::Out::hexbytes(t.data(), t.size()); }
+    template<typename T> bool leaf(T t, const char* name, std::false_type)
+    {
+        ev(std::string("F ") + name + " " + val(t, std::integral_constant<int,
+            sbepp::is_enum<T>::value ? 1 : sbepp::is_set<T>::value ? 2 : sbepp::is_array_type<T>::value ? 3 : 0>()));
+        return stopped;
+    }
+    template<typename T> bool leaf(T t, const char* name, std::true_type)
+    {
+        ev(std::string("C ") + name);
+        if(stopped) return true;
+        sbepp::visit_children(t, *this);
+        return stopped;
+    }
+    template<typename T> bool any(T t, const char* name) { return leaf(t, name, std::integral_constant<bool, sbepp::is_composite<T>::value>()); }
+
+    template<typename M, typename C, typename Tag> void on_message(M m, C& c, Tag) { sbepp::visit_children(m, c, *this); }
+    template<typename G, typename C, typename Tag> bool on_group(G g, C& c, Tag)
+    {
+        ev(std::string("G ") + tagname(Tag()) + " " + std::to_string(g.size()));
+        if(stopped) return true;
+        idx.push_back(0);
+        sbepp::visit_children(g, c, *this);
+        idx.pop_back();
+        return stopped;
+    }
+    template<typename E, typename C, typename... X> bool on_entry(E e, C& c, X...)
+    {
+        ev("E " + std::to_string(idx.back()++));
+        if(stopped) return true;
+        sbepp::visit_children(e, c, *this);
+        return stopped;
+    }
+    template<typename T, typename Tag> bool on_field(T t, Tag) { return any(t, tagname(Tag())); }
+    template<typename T, typename Tag> bool on_type(T t, Tag) { return any(t, tagname(Tag())); }
+    template<typename T, typename Tag> bool on_enum(T t, Tag) { return any(t, tagname(Tag())); }
+    template<typename T, typename Tag> bool on_set(T t, Tag) { return any(t, tagname(Tag())); }
+    template<typename T, typename Tag> bool on_composite(T t, Tag) { return any(t, tagname(Tag())); }
+    template<typename D, typename Tag> bool on_data(D d, Tag)
+    {
+        ev(std::string("D ") + tagname(Tag()) + " " + std::to_string(d.size()) + " " + rt::Out::hexbytes(d.data(), d.size()));
+        return stopped;
+    }
 };
 '''
 
